@@ -54,7 +54,7 @@ func histOracleOf(o Oracle) HistOracle {
 func ipamHistJobs(prop string, cloud bool, o Oracle, tier string) []Job {
 	depth := 5
 	if tier == "thorough" {
-		depth = 7
+		depth = 6
 	}
 	var jobs []Job
 	for _, h := range ipamHistSystems(cloud) {
